@@ -254,52 +254,64 @@ theorem tryConnect_inv {addrs} (k : St → St) (hk : ∀ st, Inv addrs st → In
 
 /-! ### `on_timeout`, and the tail of the failure branch -/
 
-theorem onTimeout_inv {addrs st} (h : Inv addrs st) (ht : st.timer ≠ .none) : Inv addrs (onTimeout st) := by
-  have hl1 : st.iters.length = 1 := by
-    rcases h.core.itl with h1 | ⟨_, h2⟩
-    · exact h1
-    · exact absurd h2 ht
+/-- the state `on_timeout` hands to `try_connect`: the secondary list becomes the second iterator -/
+def secStart (st : St) : St := { st with timer := .none, iters := st.iters ++ [st.sec] }
+
+theorem onTimeout_eq (st : St) : onTimeout st =
+    if st.done then { st with timer := .none } else tryConnect id st.iters.length st.sec (secStart st) := rfl
+
+theorem length_one_of_timer {addrs st} (h : Inv addrs st) (ht : st.timer ≠ .none) : st.iters.length = 1 := by
+  rcases h.core.itl with h1 | ⟨_, h2⟩
+  · exact h1
+  · exact absurd h2 ht
+
+theorem secStart_inv {addrs st} (h : Inv addrs st) (hl1 : st.iters.length = 1) :
+    Inv addrs (secStart st) ∧ (secStart st).iters[st.iters.length]? = some st.sec
+      ∧ (secStart st).streams.countP (undelOn st.iters.length) = 0 := by
   obtain ⟨p, hp⟩ : ∃ p, st.iters = [p] := List.length_eq_one_iff.mp hl1
-  simp only [onTimeout]
+  refine ⟨⟨?_, h.sett.of_eq rfl rfl rfl⟩, by simp [secStart], ?_⟩
+  · obtain ⟨pm, ac, _, c, d, e, f, g, i, j⟩ := h.core
+    constructor
+    · simpa [secStart, attempted, queued, hp] using pm
+    · simpa [secStart, queued, hp] using ac
+    · right; exact ⟨by simp [secStart, hp], rfl⟩
+    · intro x hx
+      have := c x hx
+      show x.it < (st.iters ++ [st.sec]).length
+      simp only [List.length_append, List.length_singleton]
+      omega
+    · exact d
+    · exact e
+    · exact f
+    · intro it l hl a ha
+      simp only [secStart, hp] at hl
+      simp only [hp] at g
+      match it with
+      | 0 => exact g 0 l (by simpa using hl) a ha
+      | 1 =>
+        simp at hl; subst hl
+        simp only [Nat.succ_ne_zero, iff_false]
+        exact i a ha
+      | n + 2 => simp at hl
+    · exact i
+    · exact j
+  · apply List.countP_eq_zero.mpr
+    intro x hx
+    have := h.core.itlt x hx
+    simp only [undelOn, Bool.and_eq_true, beq_iff_eq, not_and]
+    intro _
+    show x.it ≠ st.iters.length
+    omega
+
+theorem onTimeout_inv {addrs st} (h : Inv addrs st) (ht : st.timer ≠ .none) : Inv addrs (onTimeout st) := by
+  have hl1 := length_one_of_timer h ht
+  rw [onTimeout_eq]
   split
   · exact ⟨h.core.of_eq rfl rfl rfl rfl (Or.inl hl1), h.sett.of_eq rfl rfl rfl⟩
   · rename_i hd
     have hs : st.settles = [] := by simpa [St.done] using hd
-    have hlen : (st.iters ++ [st.sec]).length = st.iters.length + 1 := by simp
-    apply tryConnect_inv id (fun _ h => h)
-    · refine ⟨?_, h.sett.of_eq rfl rfl rfl⟩
-      obtain ⟨pm, ac, _, c, d, e, f, g, i, j⟩ := h.core
-      constructor
-      · simpa [attempted, queued, hp] using pm
-      · simpa [queued, hp] using ac
-      · right; exact ⟨by simp [hp], rfl⟩
-      · intro x hx
-        have := c x hx
-        show x.it < (st.iters ++ [st.sec]).length
-        omega
-      · exact d
-      · exact e
-      · exact f
-      · intro it l hl a ha
-        simp only [hp] at hl g
-        match it with
-        | 0 => exact g 0 l (by simpa using hl) a ha
-        | 1 =>
-          simp at hl; subst hl
-          simp only [Nat.succ_ne_zero, iff_false]
-          exact i a ha
-        | n + 2 => simp at hl
-      · exact i
-      · exact j
-    · exact hs
-    · simp
-    · apply List.countP_eq_zero.mpr
-      intro x hx
-      have := h.core.itlt x hx
-      simp only [undelOn, Bool.and_eq_true, beq_iff_eq, not_and]
-      intro _
-      show x.it ≠ st.iters.length
-      omega
+    obtain ⟨h1, h2, h3⟩ := secStart_inv h hl1
+    exact tryConnect_inv id (fun _ h => h) _ _ _ h1 hs h2 h3
 
 theorem afterFail_inv {addrs} (st : St) (h : Inv addrs st) : Inv addrs (afterFail st) := by
   simp only [afterFail]
